@@ -60,3 +60,9 @@ CLAIMS["C11"] = ("exploration",
 CLAIMS["C09"] = ("exploration",
     "Hypothesis-generated tables (1-40 rows, 1-6 columns, every body attribute in scalar / per-column / per-row / matrix / recycled-pattern shape, 0-3 removed columns at any position, 1 to many pages, three strategies) plus a per-attribute matrix sweep on a paginated table; direct rule attr[i % R][j % C] per coordinate-tagged cell with colours resolved to RGB, and the metamorphic relation unpaginated == paginated per-cell property maps (page-boundary borders excluded). " + _EXPL,
     _READER + " Frozen colour table.", "property-based testing: Hypothesis attribute shapes, direct broadcasting rule + metamorphic paginated/unpaginated relation")
+CLAIMS["C16"] = ("exploration",
+    "Hypothesis-generated figure documents (1-6 PNG / JPEG / EMF files with generated headers, arbitrary legal dimensions and random payloads incl. every length residue around the hex line break, scalar / short / long size lists, alignments, 27 placements, optional title / subline / paragraph footnote and source) plus an exhaustive payload-length sweep 0..170; oracle on parsed picture destinations (count/order, blip, byte-exact payload, pixel dimensions, display size with positional reuse, one per page, placement). Cases of one worker reuse the same file paths with new content. " + _EXPL,
+    _READER, "property-based testing / fuzzing: generated image headers and payloads, round-trip oracle on parsed \\pict destinations")
+CLAIMS["C17"] = ("exploration",
+    "Hypothesis-generated lists of 1-6 input documents from the universal strategy (tables, multi-section, figures; different geometries, page headers/footers, colours, the dictionary word 'fcharset', the same path twice) plus the empty list, a missing path at any position and a pre-existing output; oracle: C01's well-formedness predicate on the combined file, page-list concatenation compared through the independent reader, per-input geometry, byte identity for a single input, and the FileNotFoundError / no-write contract. " + _EXPL,
+    _READER, "property-based testing: generated input lists, concatenation oracle on independently parsed pages")
